@@ -937,8 +937,9 @@ func genChain(c *Ctx) {
 	}
 
 	// ---- 4. time: IsValidAt on single tokens around each bound, and the time stage at exact instants
-	base := time.Unix(2000000000, 0)
-	dists := []time.Duration{time.Nanosecond, time.Second, time.Hour, 1000000000 * time.Second}
+	dists := []time.Duration{time.Nanosecond, 100 * time.Millisecond, 300 * time.Millisecond, 700 * time.Millisecond, time.Second, time.Hour, 1000000000 * time.Second}
+	// bounds on a whole second, and (tokens held in memory keep the instant they were given) 0.4 s and 0.999999999 s into one
+	for _, base := range []time.Time{time.Unix(2000000000, 0), time.Unix(2000000000, 400_000_000), time.Unix(2000000000, 999_999_999)} {
 	for _, hasN := range []bool{false, true} {
 		for _, hasE := range []bool{false, true} {
 			var opts []delegation.Option
@@ -957,6 +958,13 @@ func genChain(c *Ctx) {
 			if err != nil {
 				panic(err)
 			}
+			// the bounds the token holds (an option may keep the instant or a neighbouring whole second)
+			if d.NotBefore() != nil {
+				nbfW = WInt(d.NotBefore().UnixNano())
+			}
+			if d.Expiration() != nil {
+				expW = WInt(d.Expiration().UnixNano())
+			}
 			var iopts []invocation.Option
 			if hasE {
 				iopts = append(iopts, invocation.WithExpiration(exp))
@@ -971,7 +979,11 @@ func genChain(c *Ctx) {
 						t := ref.Add(sg * ds)
 						c.Emit("time/dlg", WList(WStr("valid"), nbfW, expW, WInt(t.UnixNano())), WBool(d.IsValidAt(t)))
 						if !hasN {
-							c.Emit("time/inv", WList(WStr("valid"), WNull, expW, WInt(t.UnixNano())), WBool(inv.IsValidAt(t)))
+							iexpW := WNull
+							if inv.Expiration() != nil {
+								iexpW = WInt(inv.Expiration().UnixNano()) // invocation.WithExpiration keeps the nearest second
+							}
+							c.Emit("time/inv", WList(WStr("valid"), WNull, iexpW, WInt(t.UnixNano())), WBool(inv.IsValidAt(t)))
 						}
 					}
 				}
@@ -1006,6 +1018,12 @@ func genChain(c *Ctx) {
 					if err != nil {
 						panic(err)
 					}
+					if t.NotBefore() != nil {
+						nbfW = WInt(t.NotBefore().UnixNano())
+					}
+					if t.Expiration() != nil {
+						expW = WInt(t.Expiration().UnixNano())
+					}
 					ci := fakeCid(k)
 					prf = append(prf, ci)
 					ld[ci] = t
@@ -1017,11 +1035,13 @@ func genChain(c *Ctx) {
 				iexpW := WNull
 				if pos == -1 {
 					iopts = append(iopts, invocation.WithExpiration(bound))
-					iexpW = WInt(bound.UnixNano())
 				}
 				inv, err := invocation.New(dids[0], dids[L], command.Command("/"), prf, iopts...)
 				if err != nil {
 					panic(err)
+				}
+				if inv.Expiration() != nil {
+					iexpW = WInt(inv.Expiration().UnixNano())
 				}
 				var prfW []W
 				for _, p := range prf {
@@ -1038,6 +1058,7 @@ func genChain(c *Ctx) {
 				}
 			}
 		}
+	}
 	}
 	_ = datamodel.Null
 }
